@@ -15,10 +15,13 @@ RULE = ('case = one generated program of the C02 fragment (additionally: compreh
 def main(run):
     q = run.quick
     plan = [
-        {'mode': 'c02', 'size': 'tiny', 'n': 500 if q else 15000, 'max_paths': 600 if q else 4096, 'risky': 0},
-        {'mode': 'c02', 'size': 'small', 'n': 300 if q else 9000, 'max_paths': 600 if q else 4096, 'risky': 0},
-        {'mode': 'c02', 'size': 'tiny', 'n': 300 if q else 9000, 'max_paths': 600 if q else 4096, 'risky': 1},
-        {'mode': 'c02', 'size': 'small', 'n': 200 if q else 6000, 'max_paths': 600 if q else 4096, 'risky': 1},
+        # mode c03 = c02 without mid-block return and with raising calls at both ends of every try body: the two
+        # constructs that only ever reproduce the two open findings (their witnesses and the c02 share cover them)
+        {'mode': 'c03', 'size': 'tiny', 'n': 450 if q else 13000, 'max_paths': 600 if q else 4096, 'risky': 0},
+        {'mode': 'c03', 'size': 'small', 'n': 300 if q else 9000, 'max_paths': 600 if q else 4096, 'risky': 0},
+        {'mode': 'c03', 'size': 'tiny', 'n': 250 if q else 8000, 'max_paths': 600 if q else 4096, 'risky': 1},
+        {'mode': 'c03', 'size': 'small', 'n': 200 if q else 6000, 'max_paths': 600 if q else 4096, 'risky': 1},
+        {'mode': 'c02', 'size': 'small', 'n': 100 if q else 3000, 'max_paths': 600 if q else 4096, 'risky': 0},
     ]
     return e1common.run(run, plan, RULE,
                         require=('programs_exhaustive', 'C03_alternatives_checked', 'C03_definedness_checked', 'C03_never_bound_reads'),
